@@ -33,6 +33,10 @@ type Expr interface{}
 
 type EStr struct{ V string }
 type ENum struct{ V int }
+
+// ERaw is a number literal given by its spelling (digits only): its value is the decimal parse, or 0 when the
+// digits do not fit a 64-bit integer (the same "decimal parse or 0" rule as the string->number coercion).
+type ERaw struct{ S string }
 type EBool struct{ V bool }
 type EVar struct{ Name string }
 type EUn struct {
@@ -175,6 +179,8 @@ func TypeOf(e Expr, env TypeEnv) Type {
 		return TStr
 	case ENum:
 		return TNum
+	case ERaw:
+		return TNum
 	case EBool:
 		return TBool
 	case EVar:
@@ -202,6 +208,12 @@ func Eval(e Expr, env Env) (v Value, ok bool) {
 		return Str(x.V), true
 	case ENum:
 		return Num(x.V), true
+	case ERaw:
+		n, err := strconv.Atoi(x.S)
+		if err != nil {
+			n = 0
+		}
+		return Num(n), true
 	case EBool:
 		return Bool(x.V), true
 	case EVar:
@@ -381,6 +393,8 @@ func Render(e Expr, full bool) string {
 	switch x := e.(type) {
 	case EStr:
 		return QuoteStr(x.V)
+	case ERaw:
+		return x.S
 	case ENum:
 		if x.V < 0 {
 			return fmt.Sprintf("(0 - %d)", -x.V)
@@ -443,7 +457,7 @@ func needParens(child Expr, parentOp string, right bool, full bool) bool {
 		return false
 	case EUn:
 		return full
-	case ENum:
+	case ENum, ERaw:
 		return false
 	}
 	return false
